@@ -6,6 +6,7 @@ import (
 	"encoding/json"
 	"testing"
 	"time"
+	_ "time/tzdata" // the zones below do not depend on the host's zoneinfo
 )
 
 // Script: a list of samples [t, t2, ref] (nanoseconds since the Unix epoch).  For every sample the real
@@ -21,13 +22,26 @@ func TestVerifNtpExec(t *testing.T) {
 	in := vfLoad(t)
 	out := vfOut(t)
 	defer out.Close()
+	// the process-local zone is part of the environment the conversions must not depend on: samples rotate through zones
+	// whose UTC offset in 1900 (NTP epoch) differs from the one in 1970 (Unix epoch) and from today's
+	var zones []*time.Location
+	for _, z := range []string{"UTC", "Europe/London", "Asia/Kolkata", "America/New_York", "Europe/Amsterdam"} {
+		loc, err := time.LoadLocation(z)
+		if err != nil {
+			t.Fatalf("VERIF-INFRA zone %s: %v", z, err)
+		}
+		zones = append(zones, loc)
+	}
+	saved := time.Local
+	defer func() { time.Local = saved }()
 	for _, raw := range in {
 		var sc vfNtpScript
 		if err := json.Unmarshal(raw, &sc); err != nil {
 			t.Fatalf("VERIF-INFRA bad script: %v", err)
 		}
 		out.Emit(vfM{"a": "reset", "kind": sc.Kind})
-		for _, s := range sc.Samples {
+		for i, s := range sc.Samples {
+			time.Local = zones[i%len(zones)]
 			t1 := time.Unix(0, s[0])
 			t2 := time.Unix(0, s[1])
 			ref := time.Unix(0, s[2])
